@@ -80,6 +80,19 @@ func newKeyMgmtH() *H[headers.KeyMgmt] {
 			}
 			return strings.Join(its, hx.Pick(r, ";", ";", "; "))
 		},
+		variants: func(r *hx.Rand) string {
+			g := &variantGrammar{
+				prefix: noPrefix,
+				base:   func(r *hx.Rand) []string { return []string{"prot=mikey", "uri=\"rtsp://h/p\"", "data=\"" + genData(r) + "\""} },
+				specs: []kvSpec{
+					{"prot", []string{"mikey", "\"mikey\"", "mikey"}},
+					{"uri", []string{"\"rtsp://a\"", "\"rtsp://b\"", "rtsp://c"}},
+					{"data", []string{"\"" + genData(r) + "\"", "\"" + genData(r) + "\"", "\"" + genData(r) + "\""}},
+				},
+				seps: []string{";", "; "},
+			}
+			return g.gen(r)
+		},
 		corpusStr: []string{
 			`prot=mikey;uri="rtsps://192.168.1.1:322/stream";data="AQAFAPzc0BgBAAAAAAAAAAAAAAAKAAB8SR5lAAAAAAsAGRhwBOtzrBPXgSHHFGmSYRS1AAAAAQABAAEBBAAAAIALAQEQCQEBAgEECgEIDAEKAAABAQEAHiAAEPAgpFz1Igz29Ar/0B6NFmQADti5iVPeufh4tf1KHwABCAAAAAAAAAAA"`,
 			`prot=mikey`, `prot=sdes;uri="x";data="AQ=="`, `uri="x";data="AQ=="`, "",
